@@ -358,6 +358,33 @@ func (e *Exec) model(s *State, c *ssa.Call, fn *ssa.Function, full string, args 
 		e.sbAppend(s, w.V.(Ref), sprintf(s, concreteArg(args[1], "format"), sliceElems(s, args[2])))
 		return ret(mkVar("sbn", SInt), Iface{})
 	}
+	if strings.HasPrefix(full, "github.com/google/go-cmp/cmp") {
+		// go-cmp is external. Option constructors become opaque option values
+		// tagged with the constructor and its concrete string arguments;
+		// cmp.Equal(a, b, ...) is a deterministic unknown verdict about (a, b).
+		short := full[strings.LastIndex(full, "/")+1:]
+		if short == "cmp.Equal" {
+			return ret(mkVar("cmpeq!"+refTag(args[0])+"!"+refTag(args[1]), SBool))
+		}
+		var parts []string
+		for _, a := range args {
+			if sl, ok := a.(SliceV); ok {
+				for _, el := range sliceElems(s, sl) {
+					if iv, ok := el.(Iface); ok {
+						el = iv.V
+					}
+					if t, ok := el.(Text); ok {
+						parts = append(parts, t.String())
+					}
+				}
+			}
+			if t, ok := a.(Text); ok {
+				parts = append(parts, t.String())
+			}
+		}
+		rt := fn.Signature.Results().At(0).Type()
+		return ret(Iface{Dyn: errDynType, V: Opaque{Tag: "cmpopt:" + short + ":" + strings.Join(parts, ","), Typ: rt}})
+	}
 	if strings.HasSuffix(full, "/codegen.Emitter).Comment") || strings.HasSuffix(full, "/codegen.Emitter).Commentf") {
 		// Assumed contract (wordwrap is external): the text is emitted as one or
 		// more `// ...` comment lines at the current indentation.
@@ -835,4 +862,18 @@ func (c *EvalCtx) evalRef(n *Node) (Ref, bool) {
 		}
 	}
 	return Ref{}, false
+}
+
+// refTag names the object an interface/pointer argument refers to.
+func refTag(v Val) string {
+	if iv, ok := v.(Iface); ok {
+		v = iv.V
+	}
+	switch x := v.(type) {
+	case Ref:
+		return fmt.Sprintf("c%d%s", x.Cell, strings.ReplaceAll(x.Path, "/", "_"))
+	case Opaque:
+		return sanitize(x.Tag)
+	}
+	return fmt.Sprintf("%T", v)
 }
